@@ -63,16 +63,21 @@ UnknownPaths(c) == {p \in PlanPaths(c) : FileId(c, p) = UNKNOWN}
 NinjaShapeOK(c) ==
   \A s \in DOMAIN c.plan : c.plan[s].extra = <<>> /\ c.plan[s].out # "" /\ c.plan[s].input # ""
 
+(* the plan is made of the project's paths; the graph clauses (and the executor) speak about    *)
+(* file identities, so they are judged only on plans whose paths all have one                   *)
+PathsOK(c) == UnknownPaths(c) = {} /\ NinjaShapeOK(c)
+
 StaticVerdict(c) ==
   IF c.crash # "" THEN {IF c.fault = "" THEN "crash" ELSE c.fault}
   ELSE LET S == StructOf(c)
            AP == AbsPlan(c)
        IN (IF UnknownPaths(c) # {} THEN {"paths"} ELSE {})
           \cup (IF NinjaShapeOK(c) THEN {} ELSE {"ninja-shape"})
-          \cup (IF \E q \in PlanKeys(c) : Look(c.keys, q, 0) = 0 THEN {"keys"} ELSE {})
-          \cup (IF \E s \in DOMAIN c.plan : Look(c.mods, c.plan[s].module, 0) = 0 THEN {"modname"} ELSE {})
           \cup (IF RulesOK(c) THEN {} ELSE {"rules"})
-          \cup StaticFails(S, AP)
+          \cup (IF ~PathsOK(c) THEN {}
+                ELSE (IF \E q \in PlanKeys(c) : Look(c.keys, q, 0) = 0 THEN {"keys"} ELSE {})
+                     \cup (IF \E s \in DOMAIN c.plan : Look(c.mods, c.plan[s].module, 0) = 0 THEN {"modname"} ELSE {})
+                     \cup StaticFails(S, AP))
 
 AbsSrcs(c) ==
   [x \in DOMAIN c.srcs |->
@@ -136,8 +141,8 @@ Fails ==
     \cup (IF k = Len(C.events) /\ done # DOMAIN P THEN {"incomplete"} ELSE {})
   ELSE
     (IF started = {} THEN StaticVerdict(C) ELSE {})
-    \cup (IF C.crash = "" /\ RBW(P, I, started, done) # {} THEN {"rbw"} ELSE {})
-    \cup (IF C.crash = "" /\ Stuck(P, I, started, done) THEN {"stuck"} ELSE {})
+    \cup (IF C.crash = "" /\ RBW(P, I, started, done) # {} /\ PathsOK(C) THEN {"rbw"} ELSE {})
+    \cup (IF C.crash = "" /\ Stuck(P, I, started, done) /\ PathsOK(C) THEN {"stuck"} ELSE {})
 
 (* the real build tool must agree with the executor's enabling condition (machinery check) *)
 NinjaAgrees ==
